@@ -30,10 +30,10 @@ pub static DEF: CheckDef = CheckDef {
 };
 
 fn families(t: Tier) -> Vec<(&'static str, u64)> {
-    vec![("layer", t.n(6_000, 1_500_000)), ("model", t.n(2_000, 500_000)), ("cost", t.n(3_000, 500_000))]
+    vec![("layer", t.n(6_000, 1_500_000)), ("model", t.n(2_000, 500_000)), ("model-reuse", t.n(1_500, 300_000)), ("cost", t.n(3_000, 500_000))]
 }
 fn floors(_t: Tier) -> Vec<(&'static str, u64)> {
-    vec![("evaluations", 10_000), ("layer_outputs_compared", 5_000), ("model_outputs_compared", 1_500), ("cost_arrays_compared", 2_500), ("model_backward_sums_compared", 1_000), ("batched_conv_layers", 800)]
+    vec![("evaluations", 10_000), ("layer_outputs_compared", 5_000), ("model_outputs_compared", 1_500), ("cost_arrays_compared", 2_500), ("model_backward_sums_compared", 1_000), ("batched_conv_layers", 800), ("reuse_rounds_compared", 2_500), ("reuse_rounds_on_shared_storage", 800)]
 }
 
 thread_local! {
@@ -169,6 +169,115 @@ pub fn run_case(ctx: &mut Ctx, fam: &str, _k: u64, r: &mut Rng) {
                     let tscale = want_cost.v.iter().map(|x| x.abs()).sum::<f64>().max(1.0) * 10.0;
                     if !((loss - total).abs() <= tau() * tscale) {
                         ctx.violation("C15|model|backward-return", format!("{}: Model::backward returned {} but the cost array sums to {}", desc, loss, total));
+                    }
+                }
+            }
+        }
+        "model-reuse" => {
+            // one model object called several times without an update in between, on inputs related to earlier ones:
+            // the same handle, a reshaped view of it with the batch regrouped, a tracked clone, a fresh batch
+            let spec = gen_net(r, false);
+            let params = gen_params(r, &spec, false);
+            let base = gen_input(r, &spec, false);
+            let rank_unbatched = if spec.is_conv() { 3 } else { 1 };
+            let lead: Vec<usize> = base.dims[..base.dims.len() - rank_unbatched].to_vec();
+            let rest: Vec<usize> = base.dims[base.dims.len() - rank_unbatched..].to_vec();
+            let b: usize = lead.iter().product();
+            let n_rounds = r.range(2, 4);
+            // (kind, dims, fresh values?, tracked?, backward after?)
+            let mut rounds: Vec<(&'static str, T<f64>, bool, bool)> = vec![("first", base.clone(), false, r.chance(1, 2))];
+            for _ in 1..n_rounds {
+                let kind = *r.pick(&["same", "view", "view", "tracked-clone", "fresh"]);
+                let t = match kind {
+                    "view" => {
+                        let mut cands: Vec<Vec<usize>> = vec![[&[1, b][..], &rest].concat(), [&[b][..], &rest].concat()];
+                        if b == 1 {
+                            cands.push(rest.clone());
+                        }
+                        for f in 2..b {
+                            if b % f == 0 {
+                                cands.push([&[f, b / f][..], &rest].concat());
+                            }
+                        }
+                        let d = r.pick(&cands).clone();
+                        T::from_f64(&d, &base.vals())
+                    }
+                    "fresh" => {
+                        let mut s2 = spec.clone();
+                        s2.in_dims = [&[r.range(1, 3)][..], &rest].concat();
+                        gen_input(r, &s2, false)
+                    }
+                    _ => base.clone(),
+                };
+                rounds.push((kind, t, kind == "tracked-clone", r.chance(1, 2)));
+            }
+            let mut wants = vec![];
+            for (_, t, _, _) in &rounds {
+                match forward_ref::<f64>(&spec, &params, t) {
+                    Some((w, _)) => wants.push(w),
+                    None => return,
+                }
+            }
+            let targets: Vec<T<f64>> = wants.iter().map(|w| gen_target(r, &w.dims)).collect();
+            let desc = format!("model-reuse|{}|{}", spec.describe(), rounds.iter().map(|(k, t, _, bw)| format!("{}{:?}{}", k, t.dims, if *bw { "+bw" } else { "" })).collect::<Vec<_>>().join(","));
+            ctx.case(&desc, rounds.iter().any(|(k, t, _, _)| *k == "view" && t.dims != base.dims));
+            ctx.sample("reuse", || desc.clone());
+            for (k, _, _, _) in &rounds[1..] {
+                ctx.hist("reuse_round_kinds", k);
+            }
+            let res = guard(|| {
+                let a = Acts::new();
+                let mut layers = build_layers(&spec, &a, &params);
+                let opt = GradientDescent::new(0.0);
+                let mut with_cost = |costf: &CostFunction| {
+                    let refs: Vec<&mut dyn Layer> = layers.iter_mut().map(|s| s as &mut dyn Layer).collect();
+                    let mut model = Model::new(refs, &opt, costf);
+                    let base_arr = arr_t(&base);
+                    let mut seen = vec![];
+                    for (i, (kind, t, tracked, bw)) in rounds.iter().enumerate() {
+                        let input = match *kind {
+                            "first" | "same" => base_arr.clone(),
+                            "view" => base_arr.reshape(t.dims.clone()),
+                            "tracked-clone" => base_arr.clone().tracked(),
+                            _ => arr_t(t),
+                        };
+                        let _ = tracked;
+                        let out = model.forward(input);
+                        let o = Obs::of(&out);
+                        let loss = if *bw { Some(model.backward(arr_t(&targets[i])) as f64) } else { None };
+                        seen.push((o, loss));
+                    }
+                    seen
+                };
+                if spec.ce {
+                    SHARED_CE.with(|f| with_cost(f))
+                } else {
+                    SHARED_MSE.with(|f| with_cost(f))
+                }
+            });
+            match res {
+                Err(m) => ctx.violation(&format!("C15|model-reuse|panic:{}", panic_class(&m)), format!("{} panicked: {}", desc, m)),
+                Ok(seen) => {
+                    ctx.meta(|| format!("{} {:?}", desc, seen.iter().map(|(o, _)| o.dims.clone()).collect::<Vec<_>>()));
+                    for (i, (o, loss)) in seen.iter().enumerate() {
+                        ctx.count("reuse_rounds_compared", 1);
+                        if i > 0 && rounds[i].0 != "fresh" {
+                            ctx.count("reuse_rounds_on_shared_storage", 1);
+                        }
+                        let scale = wants[i].max_abs().max(rounds[i].1.max_abs()).max(1.0) * 10.0;
+                        if let Err((k, d)) = compare(&o.dims, &o.vals, &wants[i], Rule::Tol(scale)) {
+                            ctx.violation(&format!("C15|model-reuse|{}|forward-{}", rounds[i].0, k), format!("{}: call {} of the same model is not the composition of its layers on that input: {}", desc, i, d));
+                            return;
+                        }
+                        if let Some(l) = loss {
+                            let wc = cost_ref(spec.ce, &wants[i], &targets[i]).unwrap();
+                            let total: f64 = wc.v.iter().sum();
+                            let tscale = wc.v.iter().map(|x| x.abs()).sum::<f64>().max(1.0) * 10.0;
+                            if !((l - total).abs() <= tau() * tscale) {
+                                ctx.violation(&format!("C15|model-reuse|{}|backward-return", rounds[i].0), format!("{}: call {}: Model::backward returned {} but the cost array of that call sums to {}", desc, i, l, total));
+                                return;
+                            }
+                        }
                     }
                 }
             }
